@@ -28,6 +28,8 @@ RULE = ('(a) in-process, bucketed by escape site: texts from G-lex (balanced, an
         'run timing out with a match string, SIGINT during minimisation) must give a '
         'diagnostic, no traceback and a non-zero status.  Non-trivial: the input has '
         'a node with an arity no well-formed script has or is unbalanced (a) / the run '
+        '[thorough tier adds (c): an atheris/libFuzzer byte fuzzer with a token-level '
+        'decoder on the same pipeline, 30 000 executions per shard] '
         'executed >= 5 tests or is a usage error (b); distinct = distinct case.')
 ASSUMPTIONS = [
     'an exception is a violation exactly when it escapes into the main process\'s control flow',
@@ -363,6 +365,48 @@ def shard(ctx, acc):
                  sample=dict(kind=case['kind'], usage=case.get('usage'), opts=case['opts'], text=case['text'][:200]))
 
     runner.hyp_run(ctx, e2e_case(), body2, ctx.share(total2), salt=3)
+    if not ctx.quick:
+        fuzz(ctx, acc, dd, 30000)
+
+
+def fuzz(ctx, acc, dd, runs):
+    """(c) coverage-guided byte fuzzing (atheris) of the same main-process
+    pipeline; crashing inputs are re-judged by main_process_pipeline so that
+    bucket keys and replays are this check's own."""
+    import subprocess
+    tool = os.path.join(env.VERIF, 'tools', 'fuzz_c04.py')
+    if not os.path.exists('/opt/veriftools/pyvenv/bin/python'):
+        acc.count('atheris-unavailable')
+        return
+    art = os.path.join(ctx.workdir, 'fuzz')
+    os.makedirs(art, exist_ok=True)
+    done = 0
+    for round_ in range(40):
+        if done >= runs:
+            break
+        p = subprocess.run([tool, f'-runs={runs - done}', '-max_len=160', f'-seed={1 + (ctx.hseed(round_) % 2**31)}',
+                            f'-artifact_prefix={art}/', os.path.join(art, 'corpus')],
+                           capture_output=True, env=dict(os.environ, VERIF_REPO=env.REPO), timeout=3600,
+                           cwd=art, preexec_fn=lambda: os.makedirs(os.path.join(art, 'corpus'), exist_ok=True))
+        err = p.stderr.decode('utf-8', 'replace')
+        import re as _re
+        m = _re.findall(r'#(\d+)\s', err)
+        done += int(m[-1]) if m else runs
+        crashes = [f for f in os.listdir(art) if f.startswith('crash-')]
+        if 'ModuleNotFoundError' in err or 'ImportError' in err:
+            acc.count('atheris-unavailable')
+            return
+        if not crashes:
+            break
+        for c in crashes:
+            text = subprocess.run([tool, '--decode', os.path.join(art, c)], capture_output=True).stdout.decode('latin-1')
+            case = dict(kind='fuzz', text=text, ops=[], picks=[])
+            before = len(acc.violations)
+            main_process_pipeline(dd, text, acc, case)
+            if len(acc.violations) == before and not any(v['case'].get('text') == text for v in acc.violations.values()):
+                acc.count('fuzz-crash-not-reproduced-in-process')
+            os.unlink(os.path.join(art, c))
+    acc.add_extra('fuzz_executions', done)
 
 
 def replay(case, acc, ctx):
